@@ -1,7 +1,227 @@
-(* C08 (work in progress) *)
+(* C08  Name conflicts resolve to one winner and a consistent new name for the loser.
+   Only statements here; every proof is `exact <lemma>`.
+
+   Models: DnsRecordExt::compare / compare_rdata (Registry.compare_rr), Probe::tiebreaking
+   (Registry.tb_cmp, tiebreak), name_change / hostname_change (Model/Names.v), the use of names in
+   announcements (RegistryDaemon.prepare_announce).  Records are Rec.rr: class (without the
+   cache-flush bit), type, rdata; `well_typed` = the rdata struct is the one the decoder and the
+   daemon use for that type (A/AAAA address, PTR/CNAME pointer, SRV, TXT, HINFO, NSEC). *)
 From Coq Require Import List NArith Bool.
-From Mdns Require Import ParamsRegistry RegistryParamsPinned.
+From Mdns Require Import Bytes Rec ParamsRegistry Names WireOut Registry RegistryDaemon RegistrySpec
+     RegistryParamsPinned NamesProofs RegistryCmpProofs RegistryProofs RegistryDaemonProofs
+     RegistryWitnesses RegistryWitnessProofs.
+Import ListNotations.
 Open Scope N_scope.
-Theorem C08_constants : forall now, tiebreak_defer_start now = now + 1000 /\ tiebreak_defer_next now = now + 1000.
-Proof. exact tiebreak_defer_pinned. Qed.
+
+(* regenerated from the Rust on every run: tie-break only after the probe started
+   (`start_time >= now` returns), the loser restarts at now + 1000, new probes after a conflict
+   start at now + 0..250, the numeric suffix is increased by checked_add(1) *)
+Theorem C08_constants :
+  (forall start now, tiebreak_not_started start now = (now <=? start)) /\
+  (forall now, tiebreak_defer_start now = now + 1000 /\ tiebreak_defer_next now = now + 1000) /\
+  jitter_bound_conflict = 250 /\ name_suffix_step = 1 /\ host_suffix_step = 1.
+Proof. exact c08_constants. Qed.
+
+(* ---- the comparison: class, then type, then rdata -------------------------------------------- *)
+
+(* Equal exactly on equal class, type and rdata (owner name and TTL do not take part) - all records. *)
+Theorem C08_compare_refl_iff : forall a b,
+  compare_rr a b = Eq <-> r_class a = r_class b /\ r_type a = r_type b /\ r_data a = r_data b.
+Proof. exact compare_rr_eq. Qed.
+
+(* Both sides reach opposite verdicts - all well-typed records. *)
+Theorem C08_compare_antisym : forall a b,
+  well_typed a = true -> well_typed b = true -> compare_rr a b = CompOpp (compare_rr b a).
+Proof. exact compare_rr_antisym. Qed.
+
+Theorem C08_compare_trans : forall a b c,
+  well_typed a = true -> well_typed b = true -> well_typed c = true ->
+  compare_rr a b = Lt -> compare_rr b c = Lt -> compare_rr a c = Lt.
+Proof. exact compare_rr_trans. Qed.
+
+(* The typing hypothesis is needed: compare_rdata answers Greater when the other record is a
+   different Rust struct, so two ill-typed records of equal class and type are each "later". *)
+Theorem C08_compare_antisym_without_typing_refuted :
+  exists a b, r_class a = r_class b /\ r_type a = r_type b /\ compare_rr a b = Gt /\ compare_rr b a = Gt.
+Proof. exact compare_rr_illtyped_refuted. Qed.
+
+(* ---- simultaneous probes: record lists compared pairwise up to the shorter length, then by length - *)
+
+Theorem C08_tiebreak_opposite : forall mine theirs,
+  all_typed mine -> all_typed theirs ->
+  (tb_cmp mine theirs = Lt <-> tb_cmp theirs mine = Gt) /\
+  (tb_cmp mine theirs = Gt <-> tb_cmp theirs mine = Lt) /\
+  (tb_cmp mine theirs = Eq <-> tb_cmp theirs mine = Eq).
+Proof. exact tiebreak_opposite. Qed.
+
+(* a draw only for the same data (class, type, rdata of every record, same number of records) *)
+Theorem C08_tiebreak_equal_iff_same_data : forall mine theirs,
+  tb_cmp mine theirs = Eq <-> map rr_key mine = map rr_key theirs.
+Proof. exact tb_cmp_eq. Qed.
+
+(* the loser - and only a prober whose probe has started - restarts one second later *)
+Theorem C08_lost_defers_1s : forall p incoming now,
+  pb_start p < now -> tb_cmp (map p_rr (pb_records p)) incoming = Lt ->
+  tiebreak p incoming now = mkProbe (pb_records p) (pb_waiting p) (now + 1000) (now + 1000).
+Proof. exact tiebreak_lost. Qed.
+
+Theorem C08_winner_unaffected : forall p incoming now,
+  tb_cmp (map p_rr (pb_records p)) incoming <> Lt -> tiebreak p incoming now = p.
+Proof. exact tiebreak_not_lost. Qed.
+
+Theorem C08_no_tiebreak_before_start : forall p incoming now,
+  now <= pb_start p -> tiebreak p incoming now = p.
+Proof. exact tiebreak_before_start. Qed.
+
+(* ---- renaming, on all byte strings -------------------------------------------------------------- *)
+(* no_byte c s: the byte c does not occur in s; starts_dot_or_empty r: r is "" or begins with '.';
+   all_digits ds: ASCII digits; digits_val: their decimal value; dec n: n printed in decimal. *)
+
+(* 'x.<rest>' -> 'x (2).<rest>' when x has no " (" *)
+Theorem C08_name_change_fresh : forall x rest,
+  no_byte C_DOT x -> starts_dot_or_empty rest -> rsplit2 C_SP C_LP x = None ->
+  name_change (x ++ rest) = x ++ SUFFIX2 ++ rest.
+Proof. exact name_change_fresh. Qed.
+
+(* 'x (n).<rest>' -> 'x (n+1).<rest>' for every digit string n below u32::MAX, whatever x *)
+Theorem C08_name_change_increment : forall x ds rest,
+  no_byte C_DOT x -> starts_dot_or_empty rest ->
+  ds <> [] -> all_digits ds -> digits_val ds < 4294967295 ->
+  name_change (x ++ [C_SP; C_LP] ++ ds ++ [C_RP] ++ rest)
+  = x ++ [C_SP; C_LP] ++ dec (digits_val ds + 1) ++ [C_RP] ++ rest.
+Proof. exact name_change_increment. Qed.
+
+(* at 4294967295 the number cannot grow: ' (2)' is appended instead (no overflow) *)
+Theorem C08_name_change_at_u32_max : forall x ds rest,
+  no_byte C_DOT x -> starts_dot_or_empty rest ->
+  ds <> [] -> all_digits ds -> digits_val ds = 4294967295 ->
+  name_change (x ++ [C_SP; C_LP] ++ ds ++ [C_RP] ++ rest)
+  = x ++ [C_SP; C_LP] ++ ds ++ [C_RP] ++ SUFFIX2 ++ rest.
+Proof. exact name_change_at_max. Qed.
+
+(* 'x' -> 'x (2)' -> 'x (3)' *)
+Theorem C08_name_change_twice : forall x rest,
+  no_byte C_DOT x -> starts_dot_or_empty rest -> rsplit2 C_SP C_LP x = None ->
+  name_change (name_change (x ++ rest)) = x ++ [C_SP; C_LP; 51; C_RP] ++ rest.
+Proof. exact name_change_twice. Qed.
+
+(* 'h.<rest>' -> 'h-2.<rest>' -> 'h-3.<rest>', 'h-n' -> 'h-(n+1)' *)
+Theorem C08_hostname_change_fresh : forall x rest,
+  no_byte C_DOT x -> starts_dot_or_empty rest -> no_byte C_HY x ->
+  hostname_change (x ++ rest) = x ++ [C_HY; 50] ++ rest.
+Proof. exact hostname_change_fresh. Qed.
+
+Theorem C08_hostname_change_increment : forall x ds rest,
+  no_byte C_DOT x -> starts_dot_or_empty rest ->
+  ds <> [] -> all_digits ds -> digits_val ds < 4294967295 ->
+  hostname_change (x ++ [C_HY] ++ ds ++ rest) = x ++ [C_HY] ++ dec (digits_val ds + 1) ++ rest.
+Proof. exact hostname_change_increment. Qed.
+
+Theorem C08_hostname_change_at_u32_max : forall x ds rest,
+  no_byte C_DOT x -> starts_dot_or_empty rest ->
+  ds <> [] -> all_digits ds -> digits_val ds = 4294967295 ->
+  hostname_change (x ++ [C_HY] ++ ds ++ rest) = x ++ [C_HY] ++ ds ++ [C_HY; 50] ++ rest.
+Proof. exact hostname_change_at_max. Qed.
+
+Theorem C08_hostname_change_twice : forall x rest,
+  no_byte C_DOT x -> starts_dot_or_empty rest -> no_byte C_HY x ->
+  hostname_change (hostname_change (x ++ rest)) = x ++ [C_HY; 51] ++ rest.
+Proof. exact hostname_change_twice. Qed.
+
+(* the printed number reads back as itself (so counting continues from what was written) *)
+Theorem C08_suffix_roundtrip : forall n, n <= 4294967295 -> parse_u32 (dec n) = Some n.
+Proof. exact parse_dec. Qed.
+
+(* both functions only rewrite the text before the first '.' *)
+Theorem C08_rename_keeps_text_after_first_dot : forall s,
+  (exists nf, name_change s = nf ++ snd (split_first s)) /\
+  (exists nf, hostname_change s = nf ++ snd (split_first s)).
+Proof. exact rename_shape_both. Qed.
+
+(* "the new name is still encodable" is FALSE: a first label of 60 bytes (62 for a host name)
+   grows past 63 bytes ... *)
+Theorem C08_still_encodable_refuted :
+  (exists s, first_label_encodable s = true /\ first_label_encodable (name_change s) = false) /\
+  (exists s, first_label_encodable s = true /\ first_label_encodable (hostname_change s) = false).
+Proof. exact rename_overflow_both. Qed.
+
+(* ... and on the daemon (witness run on the real daemon thread): instance label of 62 bytes, a
+   conflicting SRV during probing; the thread dies when it writes the probe for the new name. *)
+Theorem C08_rename_kills_daemon_refuted : only_known 21 (self8 w_longlabel_ifs w_longlabel_its).
+Proof. exact w_longlabel_known8. Qed.
+
+(* an escaped dot inside the instance label is taken for a label boundary *)
+Theorem C08_rename_escaped_dot_refuted :
+  exists s, rename_keeps_rest s (name_change s) = false /\
+            name_change s = [77;121;92;32;40;50;41;46;83;118;99;46;95;116;46;95;116;99;112;46;108;111;99;97;108;46].
+Proof. exact name_change_escaped_dot_refuted. Qed.
+
+(* ---- names in packets after a rename ---------------------------------------------------------------- *)
+
+(* Announcements use the current names: owner of SRV/TXT = resolved full name, owner of the
+   address records = resolved host name (PTR target and SRV target likewise, by the shape of the
+   packet in C07_announce_requires_active). *)
+Theorem C08_announcement_names_resolved : forall rg s i v4,
+  Forall (fun r => p_name r = resolve_name rg (s_full s) \/ p_name r = resolve_name rg (s_host s))
+         (announce_records rg s i v4).
+Proof. exact announce_names_resolved. Qed.
+
+(* "every packet uses the new names" is FALSE for goodbyes, for direct SRV answers after a host
+   rename, and for a renamed service whose name has an upper-case letter (it still answers for the
+   name it gave up).  Witnesses run on the real daemon; the model shows the same. *)
+Theorem C08_goodbye_uses_old_names_refuted : only_known 22 (self8 w_renamed_ifs w_renamed_its).
+Proof. exact w_renamed_known8. Qed.
+Theorem C08_direct_answer_uses_old_host_refuted : only_known 23 (self8 w_hostrenamed_ifs w_hostrenamed_its).
+Proof. exact w_hostrenamed_known8. Qed.
+Theorem C08_mixed_case_answers_for_old_name_refuted : only_known 28 (self8 w_mixedcase_ifs w_mixedcase_its).
+Proof. exact w_mixedcase_known8. Qed.
+
+(* A conflict or a lost tie-break never makes probe queries come closer than 250 ms: that is
+   C07_probe_spacing_all_schedules, whose operation sequences include OConflict and OTiebreak.
+
+   NOT proved (validated by simulation, monitor c08_final): "two daemons claiming the same name
+   over a loss-free link always end with exactly one of them holding the original name and both
+   announced".  Also not proved as a theorem over all histories: that chk_C08 accepts every run of
+   the daemon model outside the classes above (the monitor is run on the model's own output for
+   every generated history). *)
+
+(* Non-vacuity: well-typed records that compare Less / Greater / Equal; a tie-break that is lost. *)
+Example C08_compare_example :
+  let a := mkRR [97] TY_SRV 1 true 120 (RSrv 0 0 80 [104]) in
+  let b := mkRR [97] TY_SRV 1 true 120 (RSrv 0 0 81 [104]) in
+  let t := mkRR [97] TY_TXT 1 true 4500 (RTxt [0]) in
+  well_typed a = true /\ well_typed b = true /\ well_typed t = true /\
+  compare_rr a b = Lt /\ compare_rr b a = Gt /\ compare_rr t a = Lt /\
+  tb_cmp [t; a] [t; b] = Lt /\ tb_cmp [t; b] [t; a] = Gt /\ tb_cmp [t] [t; a] = Lt /\
+  tiebreak (mkProbe [mkP t None 0; mkP a None 0] [] 1000 1250) [t; b] 1100
+  = mkProbe [mkP t None 0; mkP a None 0] [] 2100 2100.
+Proof. vm_compute. repeat split; reflexivity. Qed.
+
 Print Assumptions C08_constants.
+Print Assumptions C08_compare_refl_iff.
+Print Assumptions C08_compare_antisym.
+Print Assumptions C08_compare_trans.
+Print Assumptions C08_compare_antisym_without_typing_refuted.
+Print Assumptions C08_tiebreak_opposite.
+Print Assumptions C08_tiebreak_equal_iff_same_data.
+Print Assumptions C08_lost_defers_1s.
+Print Assumptions C08_winner_unaffected.
+Print Assumptions C08_no_tiebreak_before_start.
+Print Assumptions C08_name_change_fresh.
+Print Assumptions C08_name_change_increment.
+Print Assumptions C08_name_change_at_u32_max.
+Print Assumptions C08_name_change_twice.
+Print Assumptions C08_hostname_change_fresh.
+Print Assumptions C08_hostname_change_increment.
+Print Assumptions C08_hostname_change_at_u32_max.
+Print Assumptions C08_hostname_change_twice.
+Print Assumptions C08_suffix_roundtrip.
+Print Assumptions C08_rename_keeps_text_after_first_dot.
+Print Assumptions C08_still_encodable_refuted.
+Print Assumptions C08_rename_kills_daemon_refuted.
+Print Assumptions C08_rename_escaped_dot_refuted.
+Print Assumptions C08_announcement_names_resolved.
+Print Assumptions C08_goodbye_uses_old_names_refuted.
+Print Assumptions C08_direct_answer_uses_old_host_refuted.
+Print Assumptions C08_mixed_case_answers_for_old_name_refuted.
+Print Assumptions C08_compare_example.
